@@ -23,6 +23,7 @@ import GnarkVerif.Model.TowerExec
 import GnarkVerif.Model.MSM
 import GnarkVerif.Model.Poly
 import GnarkVerif.Model.TowerOps
+import GnarkVerif.Model.CpuPath
 /-
 Line-protocol driver: one op per input line, one canonical result per output line.
 The Go harness runs the real implementation on the same lines; bin/check diffs the two streams.
@@ -67,6 +68,7 @@ def handleLine (line : String) : String :=
   | "C04" :: rest => MSM.handle rest
   | "C20" :: rest => Poly.handle rest
   | "C06" :: rest => TowerOps.handle rest
+  | "C09" :: rest => CpuPath.handle rest
   | _ => "bad-op"
 
 partial def loop (h : IO.FS.Stream) (out : IO.FS.Stream) : IO Unit := do
